@@ -154,13 +154,65 @@ Lemma np_check_aux t e : np (check_aux t e).
 Proof. unfold check_aux. np_auto. Qed.
 #[global] Hint Resolve np_sh_network np_check_aux : np.
 
-Lemma Forall_np_shelley dev t u e :
-  wf_params (e_pp e) = true -> np (c_certs t) -> Forall np (shelley_checks dev t u e).
+(* ---- certificates *)
+(* the one operation of check_certificates that can still overflow: first_slot (pallas-traverse time.rs)
+   in the MIR deadline test, in overflow-checked builds *)
+Lemma np_first_slot dev ep : dev = false \/ 4492800 + (ep - 208) * 432000 < U64 -> np (first_slot dev ep).
 Proof.
-  intros Hp Hc. unfold shelley_checks. repeat constructor; try assumption;
+  intros H. unfold first_slot, mul64, add64. destruct (ep <? 208) eqn:E; [reflexivity|].
+  destruct dev.
+  - destruct H as [H|H]; [discriminate|].
+    assert (0 <= (ep - 208) * 432000) by lia.
+    destruct ((ep - 208) * 432000 <? U64) eqn:E1; [|exfalso; lia]. cbn [bind].
+    destruct (4492800 + (ep - 208) * 432000 <? U64) eqn:E2; [reflexivity | exfalso; lia].
+  - destruct ((ep - 208) * 432000 <? U64); cbn [bind];
+      match goal with |- np (if ?b then _ else _) => destruct b end; reflexivity.
+Qed.
+Lemma np_sh_check_mir dev tr tg st slot pt pr :
+  dev = false \/ 4492800 + (to_epoch slot + 1 - 208) * 432000 < U64 -> np (sh_check_mir dev tr tg st slot pt pr).
+Proof.
+  intros H. unfold sh_check_mir. apply np_bind; [apply np_first_slot; exact H|]. intros fs _.
+  destruct (fs <=? sat_add64 slot STAB_WIN); [reflexivity|].
+  match goal with |- np (match ?x with _ => _ end) => pose proof (np_sum_checked _ _ _ : np x) as Hs; destruct x end;
+    [np_auto | reflexivity | discriminate Hs].
+Qed.
+Definition is_mir (c : cert) : bool := match c with CMir _ _ => true | _ => false end.
+Definition mir_slot_ok (dev : bool) (cs : list cert) (e : env) : Prop :=
+  existsb is_mir cs = false \/ dev = false \/ 4492800 + (to_epoch (e_slot e) + 1 - 208) * 432000 < U64.
+Lemma np_sh_cert dev c ix st cnt e : mir_slot_ok dev [c] e -> np (fst (sh_cert dev c ix st cnt e)).
+Proof.
+  intros H. destruct cnt as [[d r] p]. destruct c; cbn [sh_cert];
+    repeat match goal with
+           | |- np (fst (if ?b then _ else _)) => destruct b
+           | |- np (fst (match ?x with _ => _ end)) => destruct x
+           | |- np (fst (let _ := _ in _)) => cbv zeta
+           end; try reflexivity.
+  cbn [fst]. apply np_sh_check_mir. destruct H as [H|H]; [cbn in H; discriminate | exact H].
+Qed.
+Lemma np_sh_certs_loop dev cs : forall ix cix st cnt e, mir_slot_ok dev cs e -> np (fst (sh_certs_loop dev cs ix cix st cnt e)).
+Proof.
+  induction cs as [|c r IH]; intros ix cix st cnt e H; cbn [sh_certs_loop]; [reflexivity|].
+  assert (H1 : mir_slot_ok dev [c] e).
+  { destruct H as [H|H]; [left | right; exact H]. cbn in *. apply orb_false_iff in H as [-> _]. reflexivity. }
+  assert (H2 : mir_slot_ok dev r e).
+  { destruct H as [H|H]; [left | right; exact H]. cbn in H. apply orb_false_iff in H as [_ H]. exact H. }
+  pose proof (np_sh_cert dev c cix st cnt e H1) as Hc.
+  destruct (sh_cert dev c cix st cnt e) as [[st'|x|p] cnt']; cbn [fst] in *; [apply IH; exact H2 | reflexivity | discriminate].
+Qed.
+Lemma np_sh_certs dev t e : mir_slot_ok dev (opt_list (t_certs t)) e -> np (fst (sh_certs dev t e)).
+Proof. unfold sh_certs. destruct (t_certs t); cbn [opt_list]; intros H; [apply np_sh_certs_loop; exact H | reflexivity]. Qed.
+
+Lemma np_sh_preservation dev t u pp cnt : np (sh_check_preservation dev t u pp cnt).
+Proof.
+  destruct cnt as [[d r] p]. unfold sh_check_preservation, sh_get_consumed, sh_get_produced. np_auto.
+Qed.
+Lemma Forall_np_shelley dev t u e :
+  wf_params (e_pp e) = true -> mir_slot_ok dev (opt_list (t_certs t)) e -> Forall np (shelley_checks dev t u e).
+Proof.
+  intros Hp Hc. unfold shelley_checks. repeat constructor;
+    try (apply np_sh_certs; exact Hc); try apply np_sh_preservation;
     unfold sh_check_ins_not_empty, sh_check_ins_in_utxos, sh_check_ttl, sh_check_tx_size, sh_check_min_lovelace_era,
-      sh_check_min_lovelace, sh_check_preservation, sh_get_consumed, sh_get_produced, sh_check_fees,
-      sh_check_witnesses, sh_check_minting; np_auto.
+      sh_check_min_lovelace, sh_check_fees, sh_check_witnesses, sh_check_minting; np_auto.
   apply np_min_fee; assumption.
 Qed.
 
@@ -336,7 +388,7 @@ Qed.
 
 (* ---------------------------------------------------------------- the validators *)
 Lemma era_checks_np dev t u e :
-  wf_params (e_pp e) = true -> wf_tx t = true -> wf_utxo u = true -> np (c_certs t) ->
+  wf_params (e_pp e) = true -> wf_tx t = true -> wf_utxo u = true -> mir_slot_ok dev (opt_list (t_certs t)) e ->
   Forall np (era_checks dev t u e).
 Proof.
   intros Hp Ht Hu Hc. unfold era_checks.
@@ -346,7 +398,7 @@ Proof.
 Qed.
 
 Lemma validate_np dev t u e :
-  wf_params (e_pp e) = true -> wf_tx t = true -> wf_utxo u = true -> np (c_certs t) ->
+  wf_params (e_pp e) = true -> wf_tx t = true -> wf_utxo u = true -> mir_slot_ok dev (opt_list (t_certs t)) e ->
   np (validate dev t u e).
 Proof.
   intros Hp Ht Hu Hc. unfold validate.
